@@ -49,7 +49,7 @@ var restrictLong = wprog.Restrict{NoEncrypt: true, NoObjStm: true, SafeText: tru
 
 func Run(e *core.Env) {
 	r := &restrict
-	if e.T.Bool("long", 1, 5) {
+	if e.T.Bool("long", 1, 4) {
 		r = &restrictLong
 		sparse = true
 		e.Probe("document with long streams (crash points around object boundaries)")
